@@ -7,6 +7,7 @@ import (
 	"hash/fnv"
 	"reflect"
 	"strings"
+	"time"
 
 	"golang.org/x/crypto/ssh"
 
@@ -142,7 +143,7 @@ func eqStrs(a, b []string) bool {
 }
 
 func main() {
-	ev.Main("C19", "exploration", func(r *ev.Run) {
+	ev.MainIsolated("C19", "exploration", 60*time.Minute, func(r *ev.Run) {
 		r.Rule("complete enumeration: 2^4 flags x touch policy {-1,0,1,2,3,4} x usage {0,1} x critical-option state {nil map, empty map, option present but empty, option set, only other options} = 960 attribute combinations, each with 3 principal lists/transaction ids; plus undecodable KeyIDs, nil certificate, the comments a real shim agent attaches when listing certificates of every attribute combination (held by the underlying agent and as in-memory hardware certificates), and metamorphic variants (only principals/transID/reqUser/usage/headless changed). distinct_nontrivial = distinct (attribute combination, derived type) pairs whose KeyID is consistent (reaches the rule table) plus distinct undecodable KeyIDs")
 		r.Assume("type names and suffixes are pinned in the harness from the type documentation")
 		r.Exhaustive(true)
